@@ -231,6 +231,7 @@ func runC20(c *Ctx) {
 		c20PositionsClamped(c, q)
 		c20FormatConstant(c, q)
 		c20AccessorsPlain(c)
+		c20DiffRawBytes(c)
 		c20ClampByConstantOnly(c)
 	}
 	c20ExitCodeOwn(c)
